@@ -944,6 +944,9 @@ pub fn cache_life(out: &mut Out, rng: &mut Rng, cfg: &Config, g: &GenOpts) {
     s.out.line(&init);
     s.out.line(&format!("c.clock {}", start));
     let universe = rng.range(2, 10);
+    // the key range starts at a different index hash in different lives: striped structures (the
+    // metrics counters live in 25 stripes picked by `hash % 25`) must be exercised on every stripe
+    let base = *rng.pick(&[0u64, 0, 20, 23, 45, 70]);
     let item = if cfg.ignore_internal { 0 } else { verif::cache_item_size(&s.rig.cache) as i64 };
     let unit = ((cfg.max_cost - 0) / 6).max(1);
     let mut closed = false;
@@ -957,7 +960,7 @@ pub fn cache_life(out: &mut Out, rng: &mut Rng, cfg: &Config, g: &GenOpts) {
         s.room_first = Some(cfg.buf_size);
     }
     for _ in 0..g.ops {
-        let idx = rng.below(universe);
+        let idx = base + rng.below(universe);
         let conf = if g.collisions { rng.range(1, 2) } else { 0 };
         // an insert parked after its closed-check resumes after a few other steps
         if s.parked_insert.is_some() && rng.chance(1, 3) {
